@@ -23,6 +23,10 @@
    Second topic: scenarios may give the nodes static roles on an unrelated topic "U" (taken BEFORE the roles on the
    topic under test) with traffic in every batch; its observations come under E.u and are judged by the same operators.
 
+   Several measured topics: "clones" holds the observations of additional topics on which every node plays the same roles
+   and performs the same operations and publications as on the topic under test; each is judged like it (P_C01 is a
+   per-topic statement; one heartbeat's gossip has to serve all of them).
+
    Streams (long-running histories, "stream": true): one message per heartbeat; the gossipsub part of the premise is
    evaluated PER MESSAGE on the mesh state logged at its publish instant (MsgSettled: everybody outside a mesh is within
    the exhaustive gossip fan-out, and no GRAFT/PRUNE anywhere during the message's propagation window); messages
@@ -165,7 +169,9 @@ TCheck ==
     /\ LET rt == Judge(E, subs, relays, 1, msgs)
            two == Len(E.u.pubs) > 0
            ru == IF two THEN Judge(E.u, usubs, urelays, 0, umsgs) ELSE [verdict |-> "none"]
-       IN PrintT(<<"RES", ToJson([scn |-> E.scn, k |-> E.k, stream |-> E.stream, t |-> rt, u |-> ru])>>)
+           \* the additional measured topics ("clones"): same tracked roles as the topic under test, judged by the same operator
+           rc == [i \in DOMAIN E.clones |-> Judge(E.clones[i], subs, relays, E.clones[i].topic, {d.m : d \in Range(E.clones[i].deliv)})]
+       IN PrintT(<<"RES", ToJson([scn |-> E.scn, k |-> E.k, stream |-> E.stream, t |-> rt, u |-> ru, cl |-> rc])>>)
     /\ msgs' = msgs \cup NamesOf(E.pubs)
     /\ umsgs' = umsgs \cup NamesOf(E.u.pubs)
     /\ Adv /\ UNCHANGED <<n, kind, conn, subs, relays, usubs, urelays, par>>
